@@ -154,8 +154,8 @@ PROGRAMS = {
 REDECL = [T("export"), T("function"), T("f"), T("("), T("int"), T("a", True), T(")"), T("->"), T("int"), T("{"), T("int"), ("vv", True, "first"), T("="), ("1", True, "first"), T(";"),
           T("{"), T("int"), ("vv", True, "second"), T("="), ("a", True, "second"), T("+"), ("22", True, "second"), T(";"), T("}"), T("return"), T("a", True), T(";"), T("}")]
 
-GAPS = ["\t", "\n", "\n\n", "  \n\t "]
-LEADS = ["", "\n", "  ", "\n\n\t"]
+GAPS = ["\t", "\n", "\n\n", "  \n\t ", "\r\n"]
+LEADS = ["", "\n", "  ", "\n\n\t", "\r\n"]
 
 
 def render_layout(tokens, gaps, lead):
@@ -420,7 +420,7 @@ def run(tier, seed):
     g = [" "] * (len(PROGRAMS["short-decl"]) - 1)
     g[seed % len(g)] = "\n\n"
     g[(seed * 7 + 3) % len(g)] = "\t"
-    src, offs = render_layout(PROGRAMS["short-decl"], g, LEADS[seed % 4])
+    src, offs = render_layout(PROGRAMS["short-decl"], g, LEADS[seed % len(LEADS)])
     samples = [{"text": "a\n\naa\n", "offset": 3, "reference_line": ref_line("a\n\naa\n", 3)},
                {"layout_source": src, "located_token_ranges": [o for o, t in zip(offs, PROGRAMS["short-decl"]) if t[1]]},
                {"diagnostic_program": " ".join(t[0] for t in REDECL)}]
